@@ -164,6 +164,11 @@ class RustBlockingAsyncAnalyzer(RustBaseAnalyzer):
         if _is_inside_blocking_wrapper(call_node):
             return None
 
+        # The std APIs are synchronous: a call that is awaited is the async twin
+        # brought in under the same short name (use tokio::fs; fs::read(p).await)
+        if call_node.parent is not None and call_node.parent.type == "await_expression":
+            return None
+
         return BlockingCall(
             line=call_node.start_point[0] + 1,
             column=call_node.start_point[1],
@@ -340,7 +345,8 @@ def _matches_short_net_pattern(parts: list[str]) -> bool:
     """
     if len(parts) >= 2 and parts[0] == "net" and parts[1] in _BLOCKING_NET_TYPES:
         return True
-    return False
+    # use std::net::TcpStream; TcpStream::connect(addr)
+    return len(parts) >= 2 and parts[0] in _BLOCKING_NET_TYPES
 
 
 # Function names that safely wrap blocking operations for async execution
